@@ -20,6 +20,9 @@ pub fn date_lattice(rng: &mut Rng, extra: usize) -> Vec<NaiveDate> {
     }
     for n in [MIN_DAY, MIN_DAY + 1, MIN_DAY + 6, MIN_DAY + 7, MAX_DAY - 7, MAX_DAY - 6, MAX_DAY - 1, MAX_DAY] { v.push(mk_date(n)); }
     for _ in 0..extra { v.push(mk_date(rng.range(MIN_DAY, MAX_DAY))); }
+    // every binary scale of the range (thinned in the quick tier)
+    let sd = scale_days();
+    for (i, n) in sd.iter().enumerate() { if extra >= 1000 || i % 3 == (extra % 3) { v.push(mk_date(*n)); } }
     v
 }
 
